@@ -1,6 +1,6 @@
 (* Proofs/SideC12.v — side conditions tying Model/Relay.v to the values regenerated from copy.go
    (Gen/C12.v), re-proved on every run, and the instantiation of the parametric theorems. *)
-From TX Require Import Model.Relay Proofs.Relay Gen.C12.
+From TX Require Import Model.Relay Proofs.Relay Proofs.RelayTcp Gen.C12.
 From Coq Require Import ZArith ZifyN ZifyNat ZifyBool.
 Open Scope N_scope.
 
@@ -99,4 +99,47 @@ Proof.
   split; [|split; reflexivity].
   repeat constructor; unfold valid_dgram; vm_compute; try reflexivity; discriminate.
 Qed.
+
+(* ---- Bidirectional, instantiated with constants.CopyBufferSize ---- *)
+Definition tcp_run (sA sB : list byte) (cA cB : list nat) (eA eB : N) (wA wB : bool) (sched : list nat) :=
+  run tsh (nat * tpc) (tstep CopyBufferSize)
+      (tcp_init (dir0 sA cA eA wA None false) (dir0 sB cB eB wB None false)) sched.
+
+Lemma c12_tcp_inv sA sB cA cB eA eB wA wB sched :
+  Inv sA sB (tcp_run sA sB cA cB eA eB wA wB sched).
+Proof.
+  unfold tcp_run. apply (tcp_all_schedules CopyBufferSize copy_buffer_positive sA sB);
+    unfold no_write_fault, dir0; cbn; auto.
+Qed.
+
+Lemma c12_tcp_prefix sA sB cA cB eA eB wA wB sched :
+  let s := tcp_run sA sB cA cB eA eB wA wB sched in
+  (exists x, sA = d_out (sh_d0 (fst s)) ++ x) /\ (exists y, sB = d_out (sh_d1 (fst s)) ++ y) /\
+  sh_io_after_close (fst s) = 0.
+Proof. exact (Inv_prefix sA sB _ (c12_tcp_inv sA sB cA cB eA eB wA wB sched)). Qed.
+
+Lemma c12_tcp_complete sA sB cA cB eA eB wA wB sched :
+  let s := tcp_run sA sB cA cB eA eB wA wB sched in
+  sh_ret (fst s) = true ->
+  d_out (sh_d0 (fst s)) = sA /\ d_out (sh_d1 (fst s)) = sB /\
+  d_bytes (sh_d0 (fst s)) = lenN sA /\ d_bytes (sh_d1 (fst s)) = lenN sB /\
+  d_cw (sh_d0 (fst s)) = 1 /\ d_cw (sh_d1 (fst s)) = 1 /\
+  sh_ncl_a (fst s) = 1 /\ sh_ncl_b (fst s) = 1 /\ sh_io_after_close (fst s) = 0.
+Proof. exact (Inv_returned CopyBufferSize copy_buffer_positive sA sB _ (c12_tcp_inv sA sB cA cB eA eB wA wB sched)). Qed.
+
+Lemma c12_tcp_half_close sA sB cA cB eA eB wA wB sched p0 p1 pm :
+  let s := tcp_run sA sB cA cB eA eB wA wB sched in
+  snd s = [(0%nat, p0); (1%nat, p1); (2%nat, pm)] -> (p0 <> PDone \/ p1 <> PDone) ->
+  sh_closed_a (fst s) = false /\ sh_closed_b (fst s) = false /\
+  (p0 = PDone -> d_cw (sh_d0 (fst s)) = 1) /\ (p1 = PDone -> d_cw (sh_d1 (fst s)) = 1).
+Proof. exact (Inv_half_close CopyBufferSize copy_buffer_positive sA sB _ p0 p1 pm (c12_tcp_inv sA sB cA cB eA eB wA wB sched)). Qed.
+
+(* non-vacuity / reachability of the returned state: A sends 3 bytes in 1-byte reads and half-closes first,
+   B answers with 2 bytes ending in an error delivered with the data; a fair schedule returns *)
+Lemma c12_tcp_returns_example :
+  let s := tcp_run [1; 2; 3] [4; 5] [1%nat; 1%nat] [] 0 1 false true
+             ([0; 0; 0; 0; 0; 0; 2; 1; 2; 1; 1; 1; 2; 2; 2; 2]%nat) in
+  sh_ret (fst s) = true /\ d_out (sh_d0 (fst s)) = [1; 2; 3] /\ d_out (sh_d1 (fst s)) = [4; 5] /\
+  d_err (sh_d0 (fst s)) = 0 /\ d_err (sh_d1 (fst s)) = 1.
+Proof. vm_compute. repeat split; reflexivity. Qed.
 Close Scope N_scope.
